@@ -10,11 +10,45 @@ theorem hKey_eq (rk : List Nat) : hKey rk = loadR (encE rk (List.replicate 16 0)
   unfold hKey
   rw [rb128_loadR _ (encB_length _ _) (encB_bytes _ _), toB_encB, toB_zeros]
 
-/-- **what `sealAsm` leaves in the destination (12-byte nonce) is `Model.GCM.seal`**, hence by C06 Algorithm 4 of SP 800-38D -/
+/-- **what `sealAsm` leaves in the destination is `Model.GCM.seal`**, hence by C06 Algorithm 4 of SP 800-38D — for any pre-counter
+    block `jb` that is the model's J0 -/
+theorem sealOutJ_eq (rk jb nonce pt aad : List Nat) (t fuel : Nat) (hjb : jb.length = 16) (hjbb : ∀ x ∈ jb, x < 2 ^ 8)
+    (hj : calculateJ0 (hPowers (encE rk (List.replicate 16 0))) (toB nonce) = blockToNat (toB jb))
+    (hpb : ∀ x ∈ pt, x < 2 ^ 8) (hab : ∀ x ∈ aad, x < 2 ^ 8) (hfuel : fuelNeed pt.length ≤ fuel) :
+    toB (sealOutJ rk jb pt aad t fuel) = Model.GCM.seal (encE rk) t (toB nonce) (toB pt) (toB aad) := by
+  have hE := encE_length rk
+  have hH := H_lt hE
+  have hh := hPowers_h hE
+  have hP := powOK_hPowers (hE (List.replicate 16 0))
+  have hBl := hE (List.replicate 16 0)
+  unfold sealOutJ Model.GCM.seal cryptoBlocks
+  simp only []
+  rw [hKey_eq]
+  generalize encE rk (List.replicate 16 0) = hB at *
+  have hy0 := ghUpdN_eq hB 0 aad hab
+  have r1 := ghUpdate_rep gmulOK hH hh hP Rep_zero (toB aad)
+  have r2 := cryptoBlocksAux_snd_true gmulOK hE hH hh hP ((toB pt).length / 16 + 1) (blockToNat (toB jb)) (toB pt) r1
+    (by omega)
+  have hl := ladN_eq rk jb hjb hjbb hB (pt.length / 16 + 1) 0 (ghUpdate (hPowers hB) 0 (toB aad)) pt hpb
+  rw [show laneAdd (blockToNat (toB jb)) 0 = blockToNat (toB jb) from by
+    rw [laneAdd_eq]; exact ctrAdd_zero _] at hl
+  rw [hy0, ladN_fuel rk _ (loadR hB) 1 fuel (pt.length / 16 + 1) 0 _ pt hfuel (fuelNeed_le16 _), hj,
+    natToBlock_blockToNat (by rw [toB_length]; exact hjb), toB_length, toB_length, toB_append, hl.1]
+  congr 1
+  rw [hl.2]
+  rw [toB_length] at r2
+  exact tagN_eq rk jb hB _ aad.length pt.length t r2.1 (loadR_lt hBl)
+
+theorem j0_model12 (rk nonce : List Nat) (hn : nonce.length = 12) :
+    calculateJ0 (hPowers (encE rk (List.replicate 16 0))) (toB nonce) = blockToNat (toB (nonce ++ [0, 0, 0, 1])) := by
+  unfold calculateJ0
+  rw [if_pos (by rw [toB_length]; exact hn), toB_append]
+  rfl
+
+/-- the 12-byte case -/
 theorem sealOutN_eq (rk nonce pt aad : List Nat) (t fuel : Nat) (hn : nonce.length = 12) (hnb : ∀ x ∈ nonce, x < 2 ^ 8)
     (hpb : ∀ x ∈ pt, x < 2 ^ 8) (hab : ∀ x ∈ aad, x < 2 ^ 8) (hfuel : fuelNeed pt.length ≤ fuel) :
     toB (sealOutN rk nonce pt aad t fuel) = Model.GCM.seal (encE rk) t (toB nonce) (toB pt) (toB aad) := by
-  have hE := encE_length rk
   have hjb : (nonce ++ [0, 0, 0, 1]).length = 16 := by simp [hn]
   have hjbb : ∀ x ∈ nonce ++ [0, 0, 0, 1], x < 2 ^ 8 := by
     intro x hx
@@ -23,30 +57,6 @@ theorem sealOutN_eq (rk nonce pt aad : List Nat) (t fuel : Nat) (hn : nonce.leng
     · exact hnb x h1
     · simp only [List.mem_cons, List.not_mem_nil, or_false] at h1
       rcases h1 with rfl | rfl | rfl | rfl <;> decide
-  have hH := H_lt hE
-  have hh := hPowers_h hE
-  have hP := powOK_hPowers (hE (List.replicate 16 0))
-  have hBl := hE (List.replicate 16 0)
-  unfold sealOutN Model.GCM.seal cryptoBlocks
-  simp only []
-  rw [hKey_eq]
-  generalize encE rk (List.replicate 16 0) = hB at *
-  have hj0 : calculateJ0 (hPowers hB) (toB nonce) = blockToNat (toB (nonce ++ [0, 0, 0, 1])) := by
-    unfold calculateJ0
-    rw [if_pos (by rw [toB_length]; exact hn), toB_append]
-    rfl
-  have hy0 := ghUpdN_eq hB 0 aad hab
-  have r1 := ghUpdate_rep gmulOK hH hh hP Rep_zero (toB aad)
-  have r2 := cryptoBlocksAux_snd_true gmulOK hE hH hh hP ((toB pt).length / 16 + 1) (blockToNat (toB (nonce ++ [0, 0, 0, 1]))) (toB pt) r1
-    (by omega)
-  have hl := ladN_eq rk (nonce ++ [0, 0, 0, 1]) hjb hjbb hB (pt.length / 16 + 1) 0 (ghUpdate (hPowers hB) 0 (toB aad)) pt hpb
-  rw [show laneAdd (blockToNat (toB (nonce ++ [0, 0, 0, 1]))) 0 = blockToNat (toB (nonce ++ [0, 0, 0, 1])) from by
-    rw [laneAdd_eq]; exact ctrAdd_zero _] at hl
-  rw [hy0, ladN_fuel rk _ (loadR hB) 1 fuel (pt.length / 16 + 1) 0 _ pt hfuel (fuelNeed_le16 _), hj0,
-    natToBlock_blockToNat (by rw [toB_length]; exact hjb), toB_length, toB_length, toB_append, hl.1]
-  congr 1
-  rw [hl.2]
-  rw [toB_length] at r2
-  exact tagN_eq rk (nonce ++ [0, 0, 0, 1]) hB _ aad.length pt.length t r2.1 (loadR_lt hBl)
+  exact sealOutJ_eq rk _ nonce pt aad t fuel hjb hjbb (j0_model12 rk nonce hn) hpb hab hfuel
 
 end SMGo.Proofs.ISAVal
